@@ -27,6 +27,23 @@ func (s *Shard) SetMode(m mode.Mode) error {
 	return s.setMode(m)
 }
 
+// applyConfiguredMode switches components of the just initialized shard to
+// the mode it is configured with (and reports from the very start).
+func (s *Shard) applyConfiguredMode(m mode.Mode) error {
+	s.m.Lock()
+	defer s.m.Unlock()
+
+	if m.ReadOnly() {
+		// setMode skips the storage of a shard that is already in m, while
+		// the storage was opened for writing
+		if err := s.reopenStorage(m); err != nil {
+			return err
+		}
+	}
+
+	return s.setMode(m)
+}
+
 func (s *Shard) setMode(m mode.Mode) error {
 	s.log.Info("setting shard mode",
 		zap.Stringer("old_mode", s.info.Mode),
@@ -83,6 +100,11 @@ func (s *Shard) setModeStorage(m mode.Mode) error {
 		return nil
 	}
 
+	return s.reopenStorage(m)
+}
+
+// reopenStorage closes the blob storage and opens it again as mode m needs.
+func (s *Shard) reopenStorage(m mode.Mode) error {
 	err := s.blobStor.Close()
 	if err == nil {
 		if err = s.blobStor.Open(m.ReadOnly()); err == nil && s.initedStorage {
